@@ -188,6 +188,14 @@ class Lane(LaneBase):
         order = g.get_topological_order()
         lines.append(f'topo timevalid {head} {hxlist(order)}')
         out.append('1')
+        if nodes:
+            # what the CODE returned, order included, against the transcription of networkx's
+            # lexicographical_topological_sort keyed by lag (ties broken by the exported digraph's node order)
+            nxg = g.to_networkx()
+            nn = [str(x) for x in nxg.nodes]
+            lines.append(f'nxtopo lex {hxlist(nn)} {hxedges([(str(a), str(b)) for a, b in nxg.edges])} '
+                         + ','.join(str(g.get_node(x).time_lag) for x in nn))
+            out.append(hxlist(order))
         allo = g.get_topological_order(return_all=True)
         lines.append(f'topo timeall {head}')
         out.append(hxlistlist(sorted(allo)))
